@@ -10,4 +10,5 @@ Extraction "model.ml"
   clmul pmod fmul fpow hmul qpow
   Poly64_Times Poly64_Div Poly64_Times_spec Poly64_Div_check tables_init the_tables T_Times T_Inverse T_Div T_Pow
   kernel kspec_fast kern_scalar_asm_with asm_count_legacy
-  RowReduce16 Inverse16 Times16 Times16_checked mmul16.
+  RowReduce16 Inverse16 Times16 Times16_checked mmul16
+  new_coder gen_parity reconstruct erase all_generators.
